@@ -384,10 +384,12 @@ theorem as_array (t t' : Ty) (xs : List GoVal) (kvs : List (GoVal × GoVal)) (kt
     convert (.slice t xs) .anys = .ok (.slice .any (xs.map GoVal.toLiquid)) ∧
     convert (.array t' xs) .anys = convert (.slice t xs) .anys ∧
     convert (.mapSlice kvs) .anys = convert (.slice .any (kvs.map (·.2))) .anys ∧
-    convert (.map kt vt kvs) .anys = convert (.slice .any (kvs.map (·.2))) .anys ∧
+    (MapOrder.manyClass4 kvs = false →       -- a map: its values in the order of `SortedMapKeys`, whatever the order of `kvs`
+      convert (.map kt vt kvs) .anys = convert (.slice .any ((MapOrder.sortedEntries kvs).map (·.2))) .anys) ∧
     (b - a ≤ 1000000 → convert (.range a b) .anys = .ok (.slice .any (rangeInts a b))) := by
   refine ⟨by simp [convert, GoVal.toLiquid, convElems], by simp [convert, GoVal.toLiquid, convElems],
-    by simp [convert, GoVal.toLiquid, convElems], by simp [convert, GoVal.toLiquid, convElems], ?_⟩
+    by simp [convert, GoVal.toLiquid, convElems],
+    fun hm => by simp [convert, GoVal.toLiquid, convElems, MapOrder.sortedMapEntries, hm], ?_⟩
   intro h
   have h1 : ¬ b - a + 1 > 10000000 := by omega
   have h2 : ¬ b - a > 1000000 := by omega
